@@ -46,6 +46,7 @@ struct Dgram {
 	uint64_t ordinal = 0;  // ordinal on that stream
 	uint64_t t_sent = 0;
 	bool redelivery = false; // a copy injected by a redeliver fate
+	bool retyped = false;    // a redelivery copy whose question type was changed
 	bool decoy = false;      // inert datagram queued in front of another one (C12 history differential)
 };
 
@@ -142,6 +143,7 @@ struct Redeliv {
 	uint16_t idxor = 0;          // DNS id changed by xor (0 = same id)
 	uint64_t recase = 0;         // non-zero: letters of the question name re-cased by this key
 	bool altsrc = false;         // arrives from another relay address
+	uint16_t retype = 0;         // non-zero: the copy asks the same name with this query type (another question, not a repeat)
 };
 
 struct Fate {
@@ -164,7 +166,7 @@ struct FaultCfg {
 	uint64_t t0 = 0, t1 = 0;
 	double p_drop = 0, p_dup = 0, p_delay = 0, p_trunc = 0, p_flip = 0;
 	double p_redeliv = 0;            // queries to port 53 only
-	double p_rd_newid = 0, p_rd_recase = 0, p_rd_altsrc = 0;
+	double p_rd_newid = 0, p_rd_recase = 0, p_rd_altsrc = 0, p_rd_retype = 0;
 	uint64_t rd_max_delay = 0;
 	uint64_t max_delay = 0;
 	bool enabled() const { return t1 > t0; }
@@ -218,7 +220,8 @@ struct Sim {
 	// a scheduled re-delivery is dropped when the gate says it is outside the window under test
 	std::function<bool(const Dgram &)> redeliver_gate;
 	// a relay that re-sent a query under a new id maps the answer back to the id its client used
-	std::map<std::pair<std::string, uint16_t>, uint16_t> rd_idmap;   // live log for runs that die
+	std::map<std::pair<std::string, uint16_t>, uint16_t> rd_idmap;
+	std::map<std::string, Addr> rd_altmap;          // address of another relay instance -> the client it works for (answers are passed on)   // live log for runs that die
 
 	// receive buffer residue (C12)
 	int residue_mode = 0;           // 0 zeros, 1 0xFF, 2 marker, 3 previous datagram of other source
